@@ -296,7 +296,9 @@ var c17WsModel = &Model{
 			emit(bytesCase("c17_ws", nil, genWsString(r, 1+i%60)))
 		}
 	},
-	Impl:   func(c Case) []int64 { return c17EncBytes(func() []byte { return parse.ReplaceMultipleWhitespace(exact(c17Bytes(c.Args))) }) },
+	Impl: func(c Case) []int64 {
+		return c17EncBytes(func() []byte { return parse.ReplaceMultipleWhitespace(exact(c17Bytes(c.Args))) })
+	},
 	Shrink: shrinkTail(func(Case) int { return 0 }),
 	Class: func(c Case, out []int64) string {
 		in := c17Bytes(c.Args)
